@@ -320,6 +320,11 @@ func runC19(seed uint64, n int, outDir string, replay string) {
 			o.EndCase(fmt.Sprint(rc.U64()), true)
 			continue
 		}
+		if c%5 == 2 {
+			c19Locals(o, rc)
+			o.EndCase(fmt.Sprint(rc.U64()), true)
+			continue
+		}
 		func() {
 			defer func() {
 				if p := recover(); p != nil {
@@ -551,6 +556,94 @@ func runC19(seed uint64, n int, outDir string, replay string) {
 		o.EndCase(fmt.Sprint(rc.U64()), true)
 	}
 	o.Close(nil)
+}
+
+// c19Locals: a pool that tracks local accounts (NoLocals off).  An account becomes local with its first AddLocal; from
+// then on every transaction of it - whichever way it arrives, also a replacement delivered by a peer - is exempt from
+// price-based eviction.  T3 after every step: the index invariants, and after a raise of the pool's price floor every
+// transaction of a local account is still there while the hash index, the per-account lists and Stats still agree.
+func c19Locals(o *h.Out, rc *h.Rng) {
+	defer func() {
+		if p := recover(); p != nil {
+			o.Violate("c19-panic", fmt.Sprintf("locals: panic: %v at %s", p, stackTop()))
+		}
+	}()
+	accts := p19Accounts(3)
+	for _, a := range accts {
+		a.nonce = uint64(rc.Intn(3))
+		a.balance = 50_000_000
+	}
+	cfg := core.DefaultTxPoolConfig
+	cfg.Journal = ""
+	cfg.ReorgFrequency = time.Millisecond
+	cfg.NoLocals = false
+	pool, ch, _ := newP19Pool(cfg, accts)
+	defer pool.Stop()
+	submitted := map[common.Hash]*types.Transaction{}
+	isLocal := map[int]bool{}
+	floor := uint64(1)
+	steps := 10 + rc.Intn(25)
+	for step := 0; step < steps; step++ {
+		switch k := rc.Intn(10); {
+		case k < 7:
+			ai := rc.Intn(len(accts))
+			a := accts[ai]
+			pend, que := pool.ContentFrom(a.ia)
+			nonce := a.nonce + uint64(len(pend))
+			price := floor + uint64(rc.Intn(40))
+			if len(pend) > 0 && rc.Chance(45) {
+				// a replacement of a pending transaction, priced well above the bump
+				old := pend[rc.Intn(len(pend))]
+				nonce = old.Nonce()
+				price = old.GasPrice().Uint64()*2 + 5
+			} else if rc.Chance(15) {
+				nonce += 1 + uint64(rc.Intn(2)) // a gap: queued
+			}
+			_ = que
+			tx := p19Tx(a, nonce, price, uint64(rc.Intn(100)))
+			submitted[tx.Hash()] = tx
+			var err error
+			if ai == 0 && (!isLocal[0] || rc.Chance(35)) {
+				err = pool.AddLocal(tx)
+				if err == nil {
+					isLocal[0] = true
+				}
+				o.Count("locals:add-local:" + p19Class(err))
+			} else {
+				err = pool.AddRemotesSync([]*types.Transaction{tx})[0]
+				o.Count("locals:add-remote:" + p19Class(err))
+			}
+		case k < 8:
+			var inc types.Transactions
+			for _, b := range accts {
+				pend, _ := pool.ContentFrom(b.ia)
+				sort.Slice(pend, func(i, j int) bool { return pend[i].Nonce() < pend[j].Nonce() })
+				take := rc.Intn(len(pend) + 1)
+				for _, t := range pend[:take] {
+					inc = append(inc, t)
+					b.nonce = t.Nonce() + 1
+				}
+			}
+			ch.setHead(ch.newBlock(ch.CurrentBlock(), inc, accts, uint64(step)))
+		default:
+			p19Settle(pool, accts)
+			var keep []*types.Transaction
+			if isLocal[0] {
+				pend, que := pool.ContentFrom(accts[0].ia)
+				keep = append(append(keep, pend...), que...)
+			}
+			floor += uint64(5 + rc.Intn(60))
+			pool.SetGasPrice(new(big.Int).SetUint64(floor))
+			o.Count("locals:price-raised")
+			for _, t := range keep {
+				if pool.Get(t.Hash()) == nil {
+					o.Violate("c19-local-tx-evicted-by-price", fmt.Sprintf("raising the pool's price floor to %d removed transaction %x (nonce %d, price %s) of a local account", floor, t.Hash().Bytes()[:4], t.Nonce(), t.GasPrice()))
+				}
+			}
+		}
+		p19Settle(pool, accts)
+		p19Invariants(o, pool, accts, submitted, fmt.Sprintf("locals step %d", step))
+	}
 }
 
 // c19Flood: concurrent submissions and head changes against a pool with tiny limits; invariants and limits at quiescence
